@@ -141,20 +141,32 @@ class StateUpdater:
     ) -> None:
         """Register a RemoteValue to initialize its state and/or track for expiration."""
 
+        async def read_state_slot() -> None:
+            """Read the state and free the read slot when the read has really ended."""
+            try:
+                await remote_value.read_state(wait_for_result=True)
+            finally:
+                self._semaphore.release()
+
         async def read_state_mutex() -> None:
             """Schedule to read the state from the KNX bus - one at a time."""
-            async with self._semaphore:
+            await self._semaphore.acquire()
+            try:
                 # wait until there is nothing else to send to the bus
                 await self.xknx.telegram_queue.outgoing_queue.join()
-                logger.debug(
-                    "StateUpdater reading %s for %s - %s",
-                    remote_value.group_address_state,
-                    remote_value.device_name,
-                    remote_value.feature_name,
-                )
-                # shield from cancellation so update_received() don't cancel the
-                # ValueReader leaving the telegram_received_cb until next telegram
-                await asyncio.shield(remote_value.read_state(wait_for_result=True))
+            except BaseException:
+                self._semaphore.release()
+                raise
+            logger.debug(
+                "StateUpdater reading %s for %s - %s",
+                remote_value.group_address_state,
+                remote_value.device_name,
+                remote_value.feature_name,
+            )
+            # shield from cancellation so update_received() don't cancel the
+            # ValueReader leaving the telegram_received_cb until next telegram;
+            # the slot stays taken until the shielded read itself has ended
+            await asyncio.shield(read_state_slot())
 
         tracker_options = self.parse_tracker_options(tracker_options, str(remote_value))
         tracker = _StateTracker(
